@@ -68,6 +68,9 @@ def jobs(ctx):
             for maxpos, maxval in ((2, 1), (4, 2)) if (nl <= 2 or not q) else ((3, 1),):
                 out.append(Job(REL, PKG, HK, "VerifC05Pack", {"nl": nl, "shape": sh, "maxpos": maxpos, "maxval": maxval},
                                tag="pack nl=%d shape=%d maxpos=%d maxval=%d" % (nl, sh, maxpos, maxval), cost=8.0 ** nl))
+    # wide value range: lets the solver construct hash collisions between different lines of equal length
+    for nl, sh in ((2, 5), (3, 21), (3, 22)) if q else ((2, 5), (2, 6), (3, 21), (3, 22), (3, 25), (3, 37), (4, 85)):
+        out.append(Job(REL, PKG, HK, "VerifC05Pack", {"nl": nl, "shape": sh, "maxpos": 3, "maxval": 40}, tag="pack nl=%d shape=%d wide values" % (nl, sh), cost=8.0 ** nl))
     for n in (1, 2, 3, 4) if q else (1, 2, 3, 4, 5, 6):
         out.append(Job(REL, PKG, HK, "VerifC05PickDefault", {"n": n, "maxval": 2}, tag="pickDefault n=%d" % n, cost=3.0 ** n))
     out.append(Job(REL, PKG, HK, "VerifC05Pack", {"nl": 2, "shape": 5, "maxpos": 2, "maxval": 1}, tag="pack twin", twin=True))
